@@ -296,10 +296,37 @@ Definition step_legacy (a : action) (s : sys) : sys :=
 Definition exec_legacy (sched : list action) (s : sys) : sys :=
   fold_left (fun s a => step_legacy a s) sched s.
 
+(* ------------------------------------------------------------------------- *)
+(* vocabulary of the theorems about the gather loop *)
+
+(* every child process has ended (regularly or not): Process.exitcode is set *)
+Definition quiescent (w : world) : Prop :=
+  forall p, 1 <= p <= np -> exitc (wks w p) <> None.
+
+(* number of items waiting in the log record queues of the workers *)
+Definition log_backlog (w : world) : nat :=
+  list_sum (map (fun p => length (lq (wks w p))) pids).
+
+(* bound on the number of master steps still possible once all children have ended *)
+Definition poll_bound (w : world) : nat :=
+  8 * (length (rq w) + log_backlog w) + 7.
+
 End Gather.
 
 Arguments Run {R} _ _.
 Arguments Fin {R} _.
+
+Definition is_master (a : action) : bool :=
+  match a with Master => true | Worker _ _ => false end.
+
+(* number of steps the master takes in a schedule *)
+Definition n_master (s : list action) : nat := length (filter is_master s).
+
+(* a schedule in which no worker process dies *)
+Definition is_die (a : action) : bool :=
+  match a with Worker _ (ADie _) => true | _ => false end.
+
+Definition fault_free (s : list action) : Prop := forallb (fun a => negb (is_die a)) s = true.
 
 (* ------------------------------------------------------------------------- *)
 (* parallelize(func, args_list, ncpu) without rss                             *)
